@@ -14,6 +14,7 @@ mod c19;
 mod c10;
 mod c14;
 mod c13;
+mod c12;
 
 use common::Case;
 use std::fs;
@@ -29,6 +30,7 @@ fn header(prop: &str) -> &'static str {
         "C10" | "C10rx" => "From TSG Require Import Model.ScanOps.\n",
         "C14" => "From TSG Require Import Model.C14Obs.\n",
         "C13" | "C13D" => "From TSG Require Import Model.Stdlib.\n",
+        "C12" => "From TSG Require Import Model.HashOrder.\n",
         _ => "",
     }
 }
@@ -85,6 +87,7 @@ fn main() {
                 "C10rx" => c10::gen_rx_stream(&mut rng, n),
                 "C14" => c14::gen(&mut rng, n),
                 "C13" | "C13D" => c13::gen(&mut rng, n),
+                "C12" => c12::gen(&mut rng, n),
                 _ => { eprintln!("unknown property {}", prop); std::process::exit(2) }
             };
             write_cases(&prop, &cases, shards, &out);
@@ -111,10 +114,13 @@ fn main() {
                 "C10rx" => c10::replay_rx(&j["case"]),
                 "C14" => c14::replay(&j["case"]),
                 "C13" | "C13D" => c13::replay(&j["case"]),
+                "C12" => c12::replay(&j["case"]),
                 _ => { eprintln!("unknown property {}", prop); std::process::exit(2) }
             };
             write_cases(&prop, &[case], 1, &out);
         }
+        // C12 (e): observations of this process as one line per case, compared across OS processes
+        "transcript" if prop == "C12" => c12::transcript_main(&args),
         _ => { eprintln!("usage: tsgv gen|replay <prop> [--seed S] [--n N] [--shards K] [--out DIR]"); std::process::exit(2) }
     }
 }
